@@ -41,11 +41,15 @@ func c07Snapshot(v *verifFS) *persisters.MetadataPersister {
 
 var c07Names = []string{"/a", "/b"}
 
+var c07Calls int
+
 func c07Op(v *verifFS, tag string) error {
 	op := vm.Choice(tag, 7)
 	switch op {
 	case 0:
-		return v.FS.Mkdir("/a", 0o755)
+		// the mode differs from call to call so that a re-created directory is distinguishable
+		c07Calls++
+		return v.FS.Mkdir("/a", os.FileMode(0o700+c07Calls))
 	case 1:
 		h, err := v.FS.Create("/a")
 		if err != nil {
@@ -89,9 +93,9 @@ func Harness_C07_reindex_converges() {
 	if ierr != nil {
 		return
 	}
-	n := 2
+	n := 3
 	if vm.Tier() == "thorough" {
-		n = 3
+		n = 4
 	}
 	snaps := []*persisters.MetadataPersister{c07Snapshot(v)}
 	hasMove := false
